@@ -12,7 +12,7 @@ TermsOf(ev) ==
     [] ev.kind = "instantiate" -> UNION {Rng(ev.outs[o].args) : o \in DOMAIN ev.outs} \cup {ev.pre[x] : x \in DOMAIN ev.pre}
                                   \cup UNION {Rng(ev.tps[j].b) : j \in DOMAIN ev.tps}
     [] ev.kind = "unify" -> {ev.t1, ev.t2} \cup {ev.sigma[x] : x \in DOMAIN ev.sigma}
-    [] ev.kind = "match" -> {ev.S, ev.T}
+    [] ev.kind \in {"match", "pick"} -> {ev.S, ev.T}
     [] OTHER -> {}
 \* a primitive is read as its boxed class here (the implementation represents both by one class; C06 makes no claim about primitives)
 RECURSIVE Box(_)
@@ -54,6 +54,8 @@ EvBad(CT, ev) ==
          LET names == {ev.after[j].n : j \in DOMAIN ev.after} IN
          (IF \A x \in Rng(ev.used) : x \in names THEN {} ELSE {<<"prune.UsedKept", "plain">>})
          \cup (IF \A j \in DOMAIN ev.after : ev.after[j].b = <<>> \/ FreeVars(ev.after[j].b[1]) \subseteq names THEN {} ELSE {<<"prune.TypeVarsInScope", "plain">>})
+    \* a variable offered for a wanted type has a type below it
+    [] ev.kind = "pick" -> IF SubTop(CT, AsType(CT, Box(ev.S)), Box(ev.T)) THEN {} ELSE {<<"pick.VariableAssignable", "plain">>}
     [] ev.kind = "compare" -> IF Ops!ComparableOperands(Cases[c].lang, ev.lt, ev.rt) THEN {} ELSE {<<"compare.OperandsComparable", "plain">>}
     [] OTHER -> BadEvent(CT, BoxEv(ev))
 EvReport == LET ev == Cases[c].events[e]  CT == Cases[c].ct IN
